@@ -162,6 +162,13 @@ func (g *graphGen) block() {
 		h := g.bind("", fmt.Sprintf("struct(a=%d, b=%q, c=(1, (2, \"x\")))", g.r.Intn(9), g.r.Pick([]string{"s", "a-long-string-over-12-bytes"})))
 		g.hashables = append(g.hashables, h)
 		if g.r.Bool() {
+			// a struct that is itself a sum (of operands with and without common field names)
+			h3 := g.bind("", fmt.Sprintf("%s + struct(b=%d, d=\"t\")", h, g.r.Intn(5)))
+			g.hashables = append(g.hashables, h3)
+			h4 := g.bind("", fmt.Sprintf("struct(a=1) + struct(a=2, m=%d) + struct(m=3)", g.r.Intn(5)))
+			g.hashables = append(g.hashables, h4)
+		}
+		if g.r.Bool() {
 			h2 := g.bind("", fmt.Sprintf("(%s, %d, \"t\")", h, g.r.Intn(5)))
 			g.hashables = append(g.hashables, h2)
 		}
